@@ -346,7 +346,10 @@ class C10(Suite):
                 # no GRAPH templates through a plain Graph: the partial effect before the failure
                 # depends on the (unspecified) order in which the engine enumerates the solutions
                 ops.append(self.gen_modify(rng, plain, allow_q and not plain))
-                seen_bnode = tmpl_has_bnode(ops[-1][5])
+                ins = ops[-1][5]
+                # new nodes (template blank nodes, or the graph minted for an unbound GRAPH ?g, F10e)
+                # must not be picked up by a later WHERE: their names cannot cross the boundary
+                seen_bnode = tmpl_has_bnode(ins) or (ins is not None and any(g[0] == "v" for g, _ in ins["q"]))
             elif x < 0.55 and not seen_bnode:
                 ops.append(["delwhere", gen_tmpl(rng, False, allow_q, legal_only=True)])
             elif x < 0.65:
